@@ -33,7 +33,7 @@ type c04shape struct {
 	Rules   int  `json:"rules"`
 	WhenN   int  `json:"when_bindings"`
 	Cond    int  `json:"condition"` // -1 none, else number of matching facts (0,1,2)
-	Actions int  `json:"actions"`   // 1, 2, 3 = two actions the first of which throws
+	Actions int  `json:"actions"`   // 1, 2, 3 = two actions the first of which throws, 4 = two actions the first of which does not compile
 	Serial  bool `json:"serialActions"`
 	// Mixed (two rules): 1 = only r1 has serialActions, 2 = only r2 has it
 	Mixed int    `json:"mixed_policies"`
@@ -62,8 +62,9 @@ func (s c04shape) serialFor(r int) bool {
 
 // recorder is the App: it installs rec() into every JavaScript runtime.
 type c04app struct {
-	mu   sync.Mutex // native: called from inside otto, never blocks across a scheduling point
-	recs []string
+	mu    sync.Mutex // native: called from inside otto, never blocks across a scheduling point
+	recs  []string
+	norec map[string]bool
 }
 
 func (a *c04app) GenerateHeaders(ctx *core.Context) map[string]string               { return nil }
@@ -84,6 +85,10 @@ func (a *c04app) UpdateJavascriptRuntime(ctx *core.Context, rt *otto.Otto) error
 
 // the action template: report tag + every visible candidate variable
 func c04Action(tag string, throws bool) map[string]interface{} {
+	if throws && strings.HasPrefix(tag, "!") {
+		// an action whose code does not even compile (AddRule does not compile action code)
+		return map[string]interface{}{"code": "var = ;"}
+	}
 	code := `var seen = {}; var names = ['x','y','e','event','location','ruleId','z']; ` +
 		`for (var i = 0; i < names.length; i++) { try { var v = eval(names[i]); seen[names[i]] = v; } catch (err) {} } ` +
 		`rec('` + tag + `', JSON.stringify(seen)); `
@@ -108,6 +113,7 @@ func c04Build(sh c04shape) (*core.Context, *core.Location, *c04app, map[string]i
 		}
 	}
 	var expected []string
+	norec := map[string]bool{} // tags of actions that fail before they can record anything
 	event := map[string]interface{}{"k": "v1"}
 	when := map[string]interface{}{"k": "?x"}
 	whenVals := []string{"v1"}
@@ -130,13 +136,18 @@ func c04Build(sh c04shape) (*core.Context, *core.Location, *c04app, map[string]i
 		}
 		var acts []interface{}
 		nact := sh.Actions
-		if nact == 3 {
+		if nact >= 3 {
 			nact = 2
 		}
 		for a := 0; a < nact; a++ {
 			tag := fmt.Sprintf("%s-a%d", rid, a+1)
 			// mixed policies: only the NON-serial rule has the throwing action
-			throws := sh.Actions == 3 && a == 0 && !(sh.Mixed != 0 && sh.serialFor(r))
+			throws := sh.Actions >= 3 && a == 0 && !(sh.Mixed != 0 && sh.serialFor(r))
+			if throws && sh.Actions == 4 {
+				acts = append(acts, c04Action("!"+tag, true))
+				norec[tag] = true
+				continue
+			}
 			acts = append(acts, c04Action(tag, throws))
 		}
 		rule["actions"] = acts
@@ -172,6 +183,7 @@ func c04Build(sh c04shape) (*core.Context, *core.Location, *c04app, map[string]i
 		}
 	}
 	sort.Strings(expected)
+	app.norec = norec
 	return ctx, loc, app, event, expected
 }
 
@@ -182,6 +194,7 @@ func c04Scenario(sh c04shape, bound int) *lib.SchedScenario {
 		Body: func(r *lib.Run) {
 			ctx, loc, app, event, expected := c04Build(sh)
 			r.Data["expected"] = expected
+			r.Data["norec"] = app.norec
 			fr, cond := loc.ProcessEvent(ctx, core.Map(lib.CopyMap(event)))
 			r.Data["fr"] = fr
 			r.Data["cond"] = cond
@@ -214,13 +227,24 @@ func c04Scenario(sh c04shape, bound int) *lib.SchedScenario {
 			fr, _ := r.Data["fr"].(*core.FindRules)
 			cond, _ := r.Data["cond"].(*core.Condition)
 			var vs []*lib.Violation
-			throwing := sh.Actions == 3
+			throwing := sh.Actions >= 3
+			// executions that leave a record: all but those of an action that does not compile
+			norec, _ := r.Data["norec"].(map[string]bool)
+			expRecs := expected
+			if len(norec) > 0 {
+				expRecs = nil
+				for _, e := range expected {
+					if !norec[strings.SplitN(e, "|", 2)[0]] {
+						expRecs = append(expRecs, e)
+					}
+				}
+			}
 			// serialActions: the walk may stop at the failing action of a SERIAL rule (with
 			// mixed policies only the non-serial rule throws, so nothing may stop early)
 			stopsEarly := throwing && sh.Serial && sh.Mixed == 0
 			if !stopsEarly {
-				if strings.Join(recs, "\n") != strings.Join(expected, "\n") {
-					missing, extra := diffSets(expected, recs)
+				if strings.Join(recs, "\n") != strings.Join(expRecs, "\n") {
+					missing, extra := diffSets(expRecs, recs)
 					kind := "wrong-executions"
 					switch {
 					case len(extra) == 0:
@@ -228,7 +252,7 @@ func c04Scenario(sh c04shape, bound int) *lib.SchedScenario {
 					case len(missing) == 0:
 						kind = "action-executed-more-than-once-or-with-foreign-bindings"
 					}
-					vs = append(vs, &lib.Violation{Signature: "C04/" + kind, Summary: fmt.Sprintf("%s: actions executed %v; expected %v", name, recs, expected), Expected: expected, Observed: recs})
+					vs = append(vs, &lib.Violation{Signature: "C04/" + kind, Summary: fmt.Sprintf("%s: actions executed %v; expected %v", name, recs, expRecs), Expected: expRecs, Observed: recs})
 				}
 			} else {
 				// serial + throwing: executions form a prefix-closed subset, none twice
@@ -321,7 +345,10 @@ func c04Scenarios(tier string) []*lib.SchedScenario {
 		for _, rules := range []int{1, 2} {
 			for _, wn := range []int{1, 2} {
 				for _, cond := range []int{-1, 0, 1, 2, 3} {
-					for _, acts := range []int{1, 2, 3} {
+					for _, acts := range []int{1, 2, 3, 4} {
+						if acts == 4 && (cond == 0 || cond == 3 || (tier == "quick" && state == "linear")) {
+							continue // the non-compiling first action: the main condition shapes
+						}
 						for _, serial := range []bool{false, true} {
 							if tier == "quick" && state == "linear" && (rules == 2 || cond == 0) {
 								continue
